@@ -642,7 +642,9 @@ class _OrbitDynamicsService(_DynamicsServiceBase):
             self._trajectory = traj
             return traj
 
-        return self.get_or_create(cache_key, _factory)
+        # also on a cache hit: the orbit's current trajectory is the one just asked for
+        self._trajectory = self.get_or_create(cache_key, _factory)
+        return self._trajectory
 
     def manifold(self, stable: bool = True, direction: Literal["positive", "negative"] = "positive") -> "Manifold":
         """Create a manifold for the orbit.
